@@ -125,28 +125,36 @@ CTypeOK ==
 LiveIsSnapshot == \A x \in Names : SpecOf(clive[x]) = snap[x]
 
 All == pend \cup done
-CreationsOf(x, b) == {c \in All : Creates(c) /\ c.name = x /\ c.born = b}
-EndingsOf(x, b)   == {c \in All : c.name = x /\ ((c.op = "close" /\ c.born = b) \/ (c.op = "inherit" /\ c.pborn = b))}
+Of(x) == {c \in All : c.name = x}             \* the callbacks (open or made) of one name
+CreationsIn(S, b) == {c \in S : Creates(c) /\ c.born = b}
+EndingsIn(S, b)   == {c \in S : (c.op = "close" /\ c.born = b) \/ (c.op = "inherit" /\ c.pborn = b)}
+CreationsOf(x, b) == CreationsIn(Of(x), b)
+EndingsOf(x, b)   == EndingsIn(Of(x), b)
 
 (* exactly once: over the whole history every instance is created by exactly one call, ended by at
    most one call (Close, or Inherit of its successor), never both pending and done, and the live
-   instance of a name is the one that was created and not ended *)
+   instance of a name is the one that was created and not ended.  (Evaluated name by name: trace
+   validation evaluates it on every observed state of histories with hundreds of callbacks.) *)
 ExactlyOnce ==
     /\ pend \cap done = {}
-    /\ \A c \in All :
-         /\ Creates(c) => Cardinality(CreationsOf(c.name, c.born)) = 1
-         /\ Cardinality(EndingsOf(c.name, c.born)) <= 1
-         /\ c.op = "close" => Cardinality(CreationsOf(c.name, c.born)) = 1      \* only initialised instances are closed
-         /\ c.op = "inherit" => Cardinality(CreationsOf(c.name, c.pborn)) = 1   \* predecessor was a real instance
     /\ \A x \in Names :
-         LET alive == {c \in All : Creates(c) /\ c.name = x /\ EndingsOf(x, c.born) = {}} IN
-         IF clive[x] = NoInst THEN alive = {}
-         ELSE \E c \in alive : alive = {c} /\ c.born = clive[x].born /\ c.k = clive[x].k /\ c.v = clive[x].v
+         LET S == Of(x)
+             alive == {c \in S : Creates(c) /\ EndingsIn(S, c.born) = {}}
+         IN
+         /\ \A c \in S :
+              /\ Creates(c) => Cardinality(CreationsIn(S, c.born)) = 1
+              /\ Cardinality(EndingsIn(S, c.born)) <= 1
+              /\ c.op = "close" => Cardinality(CreationsIn(S, c.born)) = 1      \* only initialised instances are closed
+              /\ c.op = "inherit" => Cardinality(CreationsIn(S, c.pborn)) = 1   \* predecessor was a real instance
+         /\ IF clive[x] = NoInst THEN alive = {}
+            ELSE \E c \in alive : alive = {c} /\ c.born = clive[x].born /\ c.k = clive[x].k /\ c.v = clive[x].v
 
 (* an ending is discharged only after the creation of the instance it ends *)
 CreatedBeforeEnded ==
-    \A c \in done : (c.op = "close" => CreationsOf(c.name, c.born) \subseteq done)
-                 /\ (c.op = "inherit" => CreationsOf(c.name, c.pborn) \subseteq done)
+    \A x \in Names :
+      LET S == Of(x) IN
+      \A c \in S \cap done : (c.op = "close" => CreationsIn(S, c.born) \subseteq done)
+                          /\ (c.op = "inherit" => CreationsIn(S, c.pborn) \subseteq done)
 
 (* the per-snapshot clauses, as an action property on snapshot steps *)
 NewObl(x) == {c \in pend' \ pend : c.name = x}
